@@ -7,6 +7,7 @@ package scheduler
 
 import (
 	"context"
+	"sync"
 	"time"
 
 	eth2v1 "github.com/attestantio/go-eth2-client/api/v1"
@@ -41,6 +42,7 @@ type vBN struct {
 	actEp   [2]uint64
 	pro     [vMaxSlot]byte // proposer per slot: 0 none, 1..3 validator index+1
 	att     [vMaxSlot]byte // one attester per slot, same coding
+	sync    [vMaxSlot / vSlotsPerEpoch]byte // sync committee member per epoch, same coding
 	fail    []bool         // failure of the i-th resolution call (symbolic)
 	calls   int
 	valFail []bool
@@ -104,17 +106,23 @@ func (b *vBN) AttesterDutiesCache(_ context.Context, ep eth2p0.Epoch, idx []eth2
 	var out []*eth2v1.AttesterDuty
 	for s := uint64(ep) * vSlotsPerEpoch; s < (uint64(ep)+1)*vSlotsPerEpoch && s < vMaxSlot; s++ {
 		if v := int(b.att[s]) - 1; v >= 0 && (vWants(idx, v) || v == 2) {
-			out = append(out, &eth2v1.AttesterDuty{PubKey: vPub(v), Slot: eth2p0.Slot(s), ValidatorIndex: eth2p0.ValidatorIndex(v)})
+			out = append(out, &eth2v1.AttesterDuty{PubKey: vPub(v), Slot: eth2p0.Slot(s), ValidatorIndex: eth2p0.ValidatorIndex(v), CommitteeLength: 1, CommitteesAtSlot: 1})
 		}
 	}
 	return eth2wrap.AttesterDutyWithMeta{Duties: out}, nil
 }
 
-func (b *vBN) SyncCommDutiesCache(context.Context, eth2p0.Epoch, []eth2p0.ValidatorIndex) (eth2wrap.SyncDutyWithMeta, error) {
+func (b *vBN) SyncCommDutiesCache(_ context.Context, ep eth2p0.Epoch, idx []eth2p0.ValidatorIndex) (eth2wrap.SyncDutyWithMeta, error) {
 	if b.nextFail() {
 		return eth2wrap.SyncDutyWithMeta{}, context.Canceled
 	}
-	return eth2wrap.SyncDutyWithMeta{}, nil
+	var out []*eth2v1.SyncCommitteeDuty
+	if uint64(ep) < uint64(len(b.sync)) {
+		if v := int(b.sync[ep]) - 1; v >= 0 && (vWants(idx, v) || v == 2) {
+			out = append(out, &eth2v1.SyncCommitteeDuty{PubKey: vPub(v), ValidatorIndex: eth2p0.ValidatorIndex(v), ValidatorSyncCommitteeIndices: []eth2p0.CommitteeIndex{0}})
+		}
+	}
+	return eth2wrap.SyncDutyWithMeta{Duties: out}, nil
 }
 
 type vTrig struct {
@@ -126,7 +134,7 @@ type vTrig struct {
 
 // VerifC15Sched: the slots of "slots" (bitmask over 0..7; unset bits are missed ticks) are scheduled in order.
 func VerifC15Sched() {
-	vrt.Unwind(16) // scheduleSlot iterates over all 13 duty types
+	vrt.Unwind(20) // scheduleSlot iterates over all 13 duty types; the harness over 16 type slots
 	mask := vrt.Param("slots")
 	bn := &vBN{}
 	// validator status is concrete per case ("act": bit v set = validator v active); an inactive validator's activation
@@ -140,6 +148,12 @@ func VerifC15Sched() {
 		bn.pro[s], bn.att[s] = vrt.Byte(vrt.N("proposer", s)), vrt.Byte(vrt.N("attester", s))
 		vrt.Assume(bn.pro[s] <= 3 && bn.att[s] <= 3)
 	}
+	if vrt.Param("sync") == 1 {
+		for e := 0; e < len(bn.sync); e++ {
+			bn.sync[e] = vrt.Byte(vrt.N("synccomm", e))
+			vrt.Assume(bn.sync[e] <= 3)
+		}
+	}
 	nfail := vrt.Param("nfail") // how many of the first resolution calls may fail (symbolically)
 	for i := 0; i < nfail; i++ {
 		bn.fail = append(bn.fail, vrt.Bool(vrt.N("fail", i)))
@@ -147,15 +161,23 @@ func VerifC15Sched() {
 	if nfail > 0 {
 		bn.valFail = append(bn.valFail, vrt.Bool(vrt.N("valfail", 0)))
 	}
-	var trig []vTrig
-	var delays []vTrig
-	var delayAt []time.Time
+	// bookkeeping by (slot, duty type): both are concrete whenever a duty is triggered, so no symbolic-length slices
+	const vTypes = 16
+	var cnt [vMaxSlot][vTypes]int
+	var rec [vMaxSlot][vTypes]vTrig
+	var dcnt [vMaxSlot][vTypes]int
+	var dAt [vMaxSlot][vTypes]time.Time
+	cur := -1 // slot being scheduled
+	var mu sync.Mutex
 	s := &Scheduler{
 		eth2Cl: bn,
 		quit:   make(chan struct{}),
 		delayFunc: func(d core.Duty, deadline time.Time) <-chan time.Time {
-			delays = append(delays, vTrig{duty: d})
-			delayAt = append(delayAt, deadline)
+			mu.Lock()
+			defer mu.Unlock()
+			vrt.Assert("a duty is only delayed for the slot being scheduled", d.Slot == uint64(cur) && int(d.Type) < vTypes)
+			dcnt[cur][d.Type]++
+			dAt[cur][d.Type] = deadline
 			c := make(chan time.Time, 1)
 			c <- deadline
 			return c
@@ -176,9 +198,15 @@ func VerifC15Sched() {
 				t.vidx = uint64(x.ValidatorIndex)
 			case core.AttesterDefinition:
 				t.vidx = uint64(x.ValidatorIndex)
+			case core.SyncCommitteeDefinition:
+				t.vidx = uint64(x.ValidatorIndex)
 			}
 		}
-		trig = append(trig, t)
+		mu.Lock()
+		defer mu.Unlock()
+		vrt.Assert("a duty is only triggered for the slot being scheduled", d.Slot == uint64(cur) && int(d.Type) < vTypes)
+		cnt[cur][d.Type]++
+		rec[cur][d.Type] = t
 		return nil
 	})
 	ctx := context.Background()
@@ -187,20 +215,28 @@ func VerifC15Sched() {
 		if (mask>>sl)&1 == 0 {
 			continue
 		}
-		before := len(trig)
+		cur = sl
 		slot := core.Slot{Slot: uint64(sl), Time: genesis.Add(time.Duration(sl) * vSlotDur), SlotDuration: vSlotDur, SlotsPerEpoch: vSlotsPerEpoch}
 		s.scheduleSlot(ctx, slot)
+		if !vrt.Symbolic() {
+			time.Sleep(40 * time.Millisecond) // native replay: duties are triggered in goroutines
+		}
+		mu.Lock()
 		ep := uint64(sl) / vSlotsPerEpoch
-		// everything triggered while scheduling this slot is a duty of this slot
-		for i := before; i < len(trig); i++ {
-			t := trig[i]
-			vrt.Assert("a duty is only triggered for the slot being scheduled", t.duty.Slot == uint64(sl))
+		for ty := 0; ty < vTypes; ty++ {
+			vrt.Assert("no duty is triggered twice", cnt[sl][ty] <= 1)
+			if cnt[sl][ty] == 0 {
+				continue
+			}
+			t := rec[sl][ty]
 			vrt.Assert("the definition set names exactly one validator", t.n == 1)
 			assigned := bn.pro[sl]
 			if t.duty.Type == core.DutyAttester || t.duty.Type == core.DutyAggregator {
 				assigned = bn.att[sl]
+			} else if t.duty.Type == core.DutySyncContribution {
+				assigned = bn.sync[ep]
 			} else {
-				vrt.Assert("only proposer, attester and aggregator duties are triggered here", t.duty.Type == core.DutyProposer)
+				vrt.Assert("only proposer, attester, aggregator and sync contribution duties are triggered here", t.duty.Type == core.DutyProposer)
 			}
 			vrt.Assert("a duty is triggered only for the validator the beacon node assigned to that slot, and only for cluster validators",
 				(assigned == 1 || assigned == 2) && t.vidx == uint64(assigned-1) && t.pk == core.PubKeyFrom48Bytes(vPub(int(assigned-1))))
@@ -208,24 +244,30 @@ func VerifC15Sched() {
 				v := int(assigned - 1)
 				vrt.Assert("no duty for an inactive validator", bn.active[v] || bn.actEp[v] == ep)
 			}
-			for k := before; k < i; k++ {
-				vrt.Assert("no duty is triggered twice", trig[k].duty != t.duty)
+		}
+		// delays: attester at 1/3, aggregator and sync contribution at 2/3 of the slot; never for the proposer
+		start := int64(sl) * int64(vSlotDur)
+		for ty := 0; ty < vTypes; ty++ {
+			vrt.Assert("a triggered duty waited for its offset exactly once", dcnt[sl][ty] <= 1)
+			if dcnt[sl][ty] == 0 {
+				continue
+			}
+			at := vrt.TimeNs(dAt[sl][ty])
+			switch core.DutyType(ty) {
+			case core.DutyAttester:
+				vrt.Assert("attester duties wait for one third of the slot", at == start+int64(vSlotDur)/3)
+			case core.DutyAggregator:
+				vrt.Assert("aggregator duties wait for two thirds of the slot", at == start+2*int64(vSlotDur)/3)
+			case core.DutySyncContribution:
+				vrt.Assert("sync contribution duties wait for two thirds of the slot", at == start+2*int64(vSlotDur)/3)
+			default:
+				vrt.Assert("no other duty type is delayed", false)
 			}
 		}
-	}
-	// delays: attester at 1/3, aggregator at 2/3 of the slot; never for the proposer
-	for i := 0; i < len(delays); i++ {
-		d := delays[i].duty
-		start := int64(d.Slot) * int64(vSlotDur)
-		at := vrt.TimeNs(delayAt[i])
-		switch d.Type {
-		case core.DutyAttester:
-			vrt.Assert("attester duties wait for one third of the slot", at == start+int64(vSlotDur)/3)
-		case core.DutyAggregator:
-			vrt.Assert("aggregator duties wait for two thirds of the slot", at == start+2*int64(vSlotDur)/3)
-		default:
-			vrt.Assert("no other duty type is delayed", false)
-		}
+		vrt.Assert("attester, aggregator and sync contribution duties are not triggered before their offset",
+			cnt[sl][core.DutyAttester] <= dcnt[sl][core.DutyAttester] && cnt[sl][core.DutyAggregator] <= dcnt[sl][core.DutyAggregator] &&
+				cnt[sl][core.DutySyncContribution] <= dcnt[sl][core.DutySyncContribution])
+		mu.Unlock()
 	}
 	// completeness when nothing failed: every assignment to an active cluster validator in a scheduled slot is triggered
 	noFail := true
@@ -247,25 +289,18 @@ func VerifC15Sched() {
 			ep := uint64(sl) / vSlotsPerEpoch
 			if p := bn.pro[sl]; p == 1 || p == 2 {
 				if bn.active[p-1] || bn.actEp[p-1] == ep {
-					found := false
-					for _, t := range trig {
-						if t.duty == core.NewProposerDuty(uint64(sl)) {
-							found = true
-						}
-					}
-					vrt.Assert("with no failing call every assigned proposer duty of a scheduled slot is triggered", found)
+					vrt.Assert("with no failing call every assigned proposer duty of a scheduled slot is triggered", cnt[sl][core.DutyProposer] == 1)
 					vrt.Reach("proposer duty expected")
 				}
 			}
 			if a := bn.att[sl]; a == 1 || a == 2 {
 				if bn.active[a-1] || bn.actEp[a-1] == ep {
-					found := false
-					for _, t := range trig {
-						if t.duty == core.NewAttesterDuty(uint64(sl)) {
-							found = true
-						}
-					}
-					vrt.Assert("with no failing call every assigned attester duty of a scheduled slot is triggered", found)
+					vrt.Assert("with no failing call every assigned attester duty of a scheduled slot is triggered", cnt[sl][core.DutyAttester] == 1)
+				}
+			}
+			if y := bn.sync[ep]; y == 1 || y == 2 {
+				if bn.active[y-1] || bn.actEp[y-1] == ep {
+					vrt.Assert("with no failing call every sync contribution duty of a scheduled slot is triggered", cnt[sl][core.DutySyncContribution] == 1)
 				}
 			}
 		}
